@@ -204,6 +204,26 @@ func (bc *Context) checkPaths(ctx context.Context) error {
 	return nil
 }
 
+// applySourceDateEpoch overwrites the configured timestamp with the
+// SOURCE_DATE_EPOCH env variable if present.
+func (bc *Context) applySourceDateEpoch() error {
+	// SOURCE_DATE_EPOCH will always overwrite the build flag
+	if v, ok := os.LookupEnv("SOURCE_DATE_EPOCH"); ok && len(strings.TrimSpace(v)) != 0 {
+		// The value MUST be an ASCII representation of an integer
+		// with no fractional component, identical to the output
+		// format of date +%s.
+		sec, err := strconv.ParseInt(v, 10, 64)
+		if err != nil {
+			// If the value is malformed, the build process
+			// SHOULD exit with a non-zero error code.
+			return fmt.Errorf("failed to parse SOURCE_DATE_EPOCH: %w", err)
+		}
+
+		bc.o.SourceDateEpoch = time.Unix(sec, 0).UTC()
+	}
+	return nil
+}
+
 // NewOptions evaluates the build.Options in the same way as New().
 func NewOptions(opts ...Option) (*options.Options, *types.ImageConfiguration, error) {
 	bc := Context{
@@ -214,6 +234,10 @@ func NewOptions(opts ...Option) (*options.Options, *types.ImageConfiguration, er
 		if err := opt(&bc); err != nil {
 			return nil, nil, err
 		}
+	}
+
+	if err := bc.applySourceDateEpoch(); err != nil {
+		return nil, nil, err
 	}
 
 	return &bc.o, &bc.ic, nil
@@ -239,19 +263,8 @@ func New(ctx context.Context, fs apkfs.FullFS, opts ...Option) (*Context, error)
 		}
 	}
 
-	// SOURCE_DATE_EPOCH will always overwrite the build flag
-	if v, ok := os.LookupEnv("SOURCE_DATE_EPOCH"); ok && len(strings.TrimSpace(v)) != 0 {
-		// The value MUST be an ASCII representation of an integer
-		// with no fractional component, identical to the output
-		// format of date +%s.
-		sec, err := strconv.ParseInt(v, 10, 64)
-		if err != nil {
-			// If the value is malformed, the build process
-			// SHOULD exit with a non-zero error code.
-			return nil, fmt.Errorf("failed to parse SOURCE_DATE_EPOCH: %w", err)
-		}
-
-		bc.o.SourceDateEpoch = time.Unix(sec, 0).UTC()
+	if err := bc.applySourceDateEpoch(); err != nil {
+		return nil, err
 	}
 
 	// if arch is missing default to the running program's arch
